@@ -43,7 +43,7 @@ LINES = {
     "r/handlers.py": ["import logging"],
 }
 LINES_SMALL = {
-    "r/m.py": ["import logging.handlers", "import handlers", "import r.handlers", "import rx.util"],
+    "r/m.py": ["import logging.handlers", "import handlers", "import r.handlers", "import rx.util", "from r.sub import k"],
     "r/sub/k.py": ["import logging.handlers", "import r.m", "import r.subx"],
 }
 FIXED = {p: True for p in CANDS if "/" in p}
@@ -64,6 +64,9 @@ CONFIGS = [
     (False, "regex", (r".*\.handlers", "os")),
     (False, "regex", ("r",)),
     (False, "regex", ("handlers|rx",)),
+    # patterns that match an internal ANCESTOR package of an imported internal module
+    (False, "glob", ("*sub",)),
+    (False, "regex", (r".*\.sub$", "logging")),
 ]
 
 
